@@ -1285,7 +1285,7 @@ impl Channel {
         }
 
         // checked above
-        let (info2, sigs) = self.enforcement_state.next_holder_commit_info.take().unwrap();
+        let (info2, sigs) = self.enforcement_state.next_holder_commit_info.clone().unwrap();
         let incoming_payment_summary =
             self.enforcement_state.incoming_payments_summary(Some(&info2), None);
         let outgoing_payment_summary = self.enforcement_state.payments_summary(Some(&info2), None);
@@ -1295,6 +1295,20 @@ impl Channel {
 
         let delta =
             self.enforcement_state.claimable_balances(&*state, Some(&info2), None, &self.setup);
+
+        // The payments were validated when the commitment was validated, but they are only
+        // applied now.  Other channels may have been updated in between, so validate again
+        // against the current node-wide payment state before committing to them.
+        state.validate_payments(
+            &self.id0,
+            &incoming_payment_summary,
+            &outgoing_payment_summary,
+            &delta,
+            validator.clone(),
+        )?;
+
+        // Only advance the state if nothing goes wrong.
+        self.enforcement_state.next_holder_commit_info = None;
 
         let (next_holder_commitment_point, maybe_old_secret) = self
             .advance_holder_commitment_state(
